@@ -55,6 +55,7 @@ class Pass:
     why: str
     min: int = 1
     rule: str = "RG-pass"
+    scope: str = "function"  # "iteration": every path from the head of the innermost enclosing loop
 
 
 @dataclass
@@ -271,12 +272,42 @@ def _run_one(prog: Program, report: Report, g) -> int:
                 if tn is None:
                     raise AnalysisError(f"{g.rule}: {g.fn}: no CFG node for target {one_line(t)[:60]}")
                 thr = [x for x in through if x is not tn]
-                ok = bool(thr) and v.cfg.must_pass(tn, thr)
+                if getattr(g, "scope", "function") == "iteration":
+                    ok = bool(thr) and _must_pass_iteration(v, t, tn, thr)
+                else:
+                    ok = bool(thr) and v.cfg.must_pass(tn, thr)
                 if ok:
                     report.ob(g.rule, g.fn, f"every path to [{one_line(t)[:80]}] passes /{g.through}/")
                 else:
                     report.violate(g.rule, v.fn, t, f"{g.why.split(';')[0]}: {one_line(t)[:100]}", f"{g.why}; a path from the function entry reaches this statement without passing `{g.through}`", what=f"every path to the target passes /{g.through}/")
     return n
+
+
+def _must_pass_iteration(v: FnView, t: ast.AST, tn, thr: list) -> bool:
+    """Every path from the start of an iteration of the innermost loop around `t` to `t` passes `thr`."""
+    from ..core import parent_of
+
+    loop = parent_of(t)
+    while loop is not None and not isinstance(loop, (ast.For, ast.While)):
+        loop = parent_of(loop)
+    if loop is None:
+        raise AnalysisError("RG-pass: iteration scope outside a loop")
+    heads = [n for n in v.cfg.nodes if n.node is loop and n.kind in ("for-next", "join")]
+    if not heads:
+        raise AnalysisError("RG-pass: loop head not found")
+    start = heads[0]
+    block = set(thr)
+    seen = {start}
+    st = [start]
+    while st:
+        n = st.pop()
+        if n is tn:
+            return False
+        for s_ in n.succ:
+            if s_ not in seen and s_ not in block and s_ is not start:
+                seen.add(s_)
+                st.append(s_)
+    return True
 
 
 def _must(report: Report, v: FnView, g: Must) -> None:
